@@ -280,6 +280,11 @@ var padSizes = []int{0, 1, 2, 5, 40, 500, 1000, 1023, 1024, 1025, 1500, 2040, 20
 // that starts and ends a line.
 func padding(t *tape.Tape, n int) string {
 	var sb strings.Builder
+	if t.Chance(1, 4) {
+		// a trailing comment on the line the break ends (any text up to the end of the line)
+		unit := []string{"c", "say \"hi\" ", "see #{x} ", "it's `r` ", "} \" ", "|. ?c "}[t.Intn(6)]
+		sb.WriteString(strings.Repeat(" ", t.Intn(3)) + "# " + strings.Repeat(unit, 1+t.Intn(3)))
+	}
 	sb.WriteString("\n")
 	if n > 20000 && t.Chance(2, 3) {
 		// volume on ONE physical line: a comment line or a line of blanks/tabs of n bytes
@@ -325,6 +330,7 @@ var layoutSeeds = []string{
 	"g := {|x|\n  defer x.p\n  return x if x > 1\n  x * 2\n}\ng(\n  3\n)\n",
 	"x := 1 # trailing comment\n# full comment line\ny := 2 # another\n[x, # c\n  y]\n",
 	"<{|i|\n  yield i if i < 3\n  recur(i + 1)\n}>.new(0)\n  |@{|v| v}\n  |~.len\n",
+	"s := \"n=#{[{|x| x}\n].len} m=#{[{a: 1}\n  ].len}\"\ns\n",
 	"v := `first line\nsecond line\n\n  fourth`\nw := `a\nb`\n[v.len, w.len, v]\n",
 	"f := {|a, k: 1, j: 2| [a, k, j]}\nf(1, k: S(1), j: S(2))\nf(2, j: S(3), k: S(4))\nf(3, k: S(5), k: S(6))\n",
 	"g := {|a, k: S(1), j: S(2), k: S(3)| [a, k, j]}\ng(1, **{k: S(4)}, **{j: S(5)})\no := {m: m{|k: 1, j: 2| [k, j]}}\no.m(j: S(6), k: S(7), j: S(8))\n",
